@@ -324,4 +324,182 @@ theorem allocOK_renameSpace (kw : List String) (t : Tabs) (st st' : SM.St) (h : 
     obtain ⟨e0, he0, rfl⟩ := List.mem_map.mp he
     exact List.mem_map.mpr ⟨e0, ha.slots e0 he0, rfl⟩
 
+/-! ### one step, histories -/
+
+variable {P : Params} {lt : Node → Node → Prop}
+
+/-- the side condition of a rename step (`slotsFixed`); every other step: none -/
+def SlotsOK (w : W) : OpR → Prop
+  | .renameSpace p new => slotsFixed w.tabs p new = true
+  | .g _ => True
+
+theorem stepR_rename_env (w : W) (p : Path) (new : String) (h : CIG P lt w)
+    (hs : slotsFixed w.tabs p new = true) : (stepR P w (.renameSpace p new)).env P = w.env P := by
+  simp only [stepR]
+  cases hop : w.sm.renameSpace P.kw p new with
+  | error e => rfl
+  | ok st' => exact envOf_renameSpace P w.tabs w.sm st' h.inv p new hop hs
+
+/-- **`space.rename` keeps the invariant** -/
+theorem stepR_rename_cig (w : W) (p : Path) (new : String) (hw : WF (w.env P) lt) (h : CIG P lt w)
+    (hs : slotsFixed w.tabs p new = true) : CIG P lt (stepR P w (.renameSpace p new)) := by
+  have henv := stepR_rename_env w p new h hs
+  revert henv
+  simp only [stepR]
+  cases hop : w.sm.renameSpace P.kw p new with
+  | error e => intro _; exact h
+  | ok st' =>
+    intro henv
+    refine ⟨inv_renameSpace P.kw w.sm st' h.inv p new hop, allocOK_renameSpace P.kw _ _ _ h.inv h.alloc p new hop, ?_⟩
+    rw [henv]
+    exact (doClears_facts hw.scoping hw.noCatch _ _ h.ci).1
+
+theorem stepR_cig (ho : StrictOrder lt) (w : W) (op : OpR) (hw : WF (w.env P) lt) (h : CIG P lt w)
+    (hs : SlotsOK w op) : CIG P lt (stepR P w op) := by
+  cases op with
+  | g o => exact stepG_cig ho w o hw h
+  | renameSpace p new => exact stepR_rename_cig w p new hw h hs
+
+variable (P lt)
+
+/-- the definitions stay in the regime after every operation; a rename finds no declared slot in the
+spaces it relabels -/
+def AdmissibleR : W → List OpR → Prop
+  | _, [] => True
+  | w, op :: ops => SlotsOK w op ∧ WF ((stepR P w op).env P) lt ∧ AdmissibleR (stepR P w op) ops
+
+variable {P lt}
+
+theorem runR_cig (ho : StrictOrder lt) : ∀ (ops : List OpR) (w : W), WF (w.env P) lt → CIG P lt w →
+    AdmissibleR P lt w ops → CIG P lt (runR P w ops) ∧ WF ((runR P w ops).env P) lt := by
+  intro ops
+  induction ops with
+  | nil => intro w hw h _; exact ⟨h, hw⟩
+  | cons op rest ih =>
+    intro w hw h hadm
+    obtain ⟨h1, h2, h3⟩ := hadm
+    exact ih (stepR P w op) h2 (stepR_cig ho w op hw h h1) h3
+
+theorem stepR_rg (w : W) (op : OpR) (hw : WF (w.env P) lt) (h : CIG P lt w)
+    (hr : RgNoInputs w.ex) : RgNoInputs (stepR P w op).ex := by
+  cases op with
+  | g o => exact stepG_rg w o hw h hr
+  | renameSpace p new =>
+    simp only [stepR]
+    cases hop : w.sm.renameSpace P.kw p new with
+    | error e => exact hr
+    | ok st' => exact (inpOf_doClears hw.scoping hw.noCatch _ _ h.ci hr).2
+
+theorem stepR_sim (ho : StrictOrder lt) (w1 w2 : W) (op : OpR) (hw : WF (w1.env P) lt)
+    (h1 : CIG P lt w1) (h2 : CIG P lt w2) (r1 : RgNoInputs w1.ex) (r2 : RgNoInputs w2.ex) (hs : Sim w1 w2) :
+    Sim (stepR P w1 op) (stepR P w2 op) := by
+  cases op with
+  | g o => exact stepG_sim ho w1 w2 o hw h1 h2 r1 r2 hs
+  | renameSpace p new =>
+    simp only [stepR, hs.sm, hs.tabs]
+    cases hop : w1.sm.renameSpace P.kw p new with
+    | error e => exact hs
+    | ok st' =>
+      refine ⟨rfl, rfl, ?_⟩
+      have hci2 : CI (envOf P w1.tabs w1.sm) lt w2.ex := by
+        have := h2.ci
+        unfold W.env at this
+        rw [hs.sm, hs.tabs] at this
+        exact this
+      have hw' : WF (envOf P w1.tabs w1.sm) lt := hw
+      have hci1 : CI (envOf P w1.tabs w1.sm) lt w1.ex := h1.ci
+      funext m
+      show inpOf (doClears _ w2.ex _) m = inpOf (doClears _ w1.ex _) m
+      rw [(inpOf_doClears hw'.scoping hw'.noCatch _ _ hci2 r2).1 m,
+        (inpOf_doClears hw'.scoping hw'.noCatch _ _ hci1 r1).1 m, hs.inp]
+
+def isEvalR : OpR → Bool
+  | .g o => isEvalG o
+  | _ => false
+
+/-- the history with every evaluation removed -/
+def noEvalsR (ops : List OpR) : List OpR := ops.filter (fun op => !isEvalR op)
+
+/-- **the live run and the run without the evaluations**, histories with renames: same structure, identities
+and inputs at the end; both satisfy the invariant -/
+theorem runR_sim (ho : StrictOrder lt) : ∀ (ops : List OpR) (w1 w2 : W), WF (w1.env P) lt →
+    CIG P lt w1 → CIG P lt w2 → RgNoInputs w1.ex → RgNoInputs w2.ex → Sim w1 w2 → AdmissibleR P lt w1 ops →
+    Sim (runR P w1 ops) (runR P w2 (noEvalsR ops)) ∧ CIG P lt (runR P w1 ops) ∧
+      CIG P lt (runR P w2 (noEvalsR ops)) ∧ WF ((runR P w1 ops).env P) lt := by
+  intro ops
+  induction ops with
+  | nil => intro w1 w2 hw h1 h2 _ _ hs _; exact ⟨hs, h1, h2, hw⟩
+  | cons op rest ih =>
+    intro w1 w2 hw h1 h2 r1 r2 hs hadm
+    obtain ⟨a1, a2, a3⟩ := hadm
+    have c1 := stepR_cig ho w1 op hw h1 a1
+    have g1 := stepR_rg w1 op hw h1 r1
+    by_cases hev : isEvalR op = true
+    · have : noEvalsR (op :: rest) = noEvalsR rest := by simp [noEvalsR, List.filter, hev]
+      rw [this]
+      cases op with
+      | g o =>
+        cases o with
+        | op o =>
+          cases o with
+          | eval q n key =>
+            exact ih _ w2 a2 c1 h2 g1 r2 (stepG_eval_sim ho w1 w2 q n key hw h1 r1 hs) a3
+          | _ => cases hev
+        | _ => cases hev
+      | _ => cases hev
+    · have hev' : isEvalR op = false := by simpa using hev
+      have : noEvalsR (op :: rest) = op :: noEvalsR rest := by simp [noEvalsR, List.filter, hev']
+      rw [this]
+      have hw2 : WF (w2.env P) lt := by rw [hs.env_eq P]; exact hw
+      have a1' : SlotsOK w2 op := by
+        cases op with
+        | g o => trivial
+        | renameSpace p new => show slotsFixed w2.tabs p new = true; rw [hs.tabs]; exact a1
+      have c2 := stepR_cig ho w2 op hw2 h2 a1'
+      have g2 := stepR_rg w2 op hw2 h2 r2
+      exact ih _ _ a2 c1 c2 g1 g2 (stepR_sim ho w1 w2 op hw h1 h2 r1 r2 hs) a3
+
+/-! ### coverage -/
+
+theorem mem_renameClearing_del (t : Tabs) (st : SM.St) (p r : Path) (c : CellId) (hr : r ∈ renamed st p)
+    (hc : c ∈ cellsOf t st r) : Clear.del c ∈ renameClearing t st p := by
+  unfold renameClearing
+  refine List.mem_append_left _ (List.mem_flatMap.mpr ⟨r, hr, List.mem_map.mpr ⟨c, hc, rfl⟩⟩)
+
+/-- **the clearing of a rename covers what the rename can change**: every cells of the renamed space and of
+every space below it is cleared as an object (all its nodes, with everything computed through them), the
+cells of the parent are notified -/
+theorem renameCovered_renameClearing (t : Tabs) (st : SM.St) (p : Path) :
+    renameCovered t st p (renameClearing t st p) = true := by
+  unfold renameCovered
+  simp only [Bool.and_eq_true, List.all_eq_true]
+  refine ⟨?_, ?_⟩
+  · intro r hr c hc
+    unfold clearedBy
+    rw [List.any_eq_true]
+    exact ⟨_, mem_renameClearing_del t st p r c hr hc, by simp⟩
+  · intro c hc
+    unfold touchedBy
+    rw [List.any_eq_true]
+    refine ⟨Clear.ns (cellsOf t st p.dropLast), ?_, by simpa using hc⟩
+    unfold renameClearing
+    exact List.mem_append_right _ (List.mem_singleton.mpr rfl)
+
+/-- what a covering clearing leaves of the renamed spaces: no node, no value, no input of any of their cells -/
+theorem renameCovered_sound (env : Env) (hsc : Scoped env) (hnc : NoCatchEnv env) (t : Tabs) (st : SM.St) (p : Path)
+    (cl : List Clear) (s : Exec.St) (hci : CI env lt s) (hr : RgNoInputs s)
+    (hcov : renameCovered t st p cl = true) :
+    (∀ r ∈ renamed st p, ∀ c ∈ cellsOf t st r, NoNodes (doClears env s cl) c ∧
+      ∀ key, inpOf (doClears env s cl) (c, key) = none) ∧
+    (∀ c ∈ cellsOf t st p.dropLast, Clean (doClears env s cl) c) := by
+  unfold renameCovered at hcov
+  simp only [Bool.and_eq_true, List.all_eq_true] at hcov
+  obtain ⟨_, _, _, _, hT, hCl, _, _⟩ := doClears_facts hsc hnc cl s hci
+  refine ⟨?_, fun c hc => hT c (hcov.2 c hc)⟩
+  intro r hr' c hc
+  refine ⟨hCl c (hcov.1 r hr' c hc), ?_⟩
+  intro key
+  rw [(inpOf_doClears hsc hnc cl s hci hr).1 (c, key)]
+  simp [hcov.1 r hr' c hc]
+
 end MxModel.Edit
